@@ -113,6 +113,7 @@ theorem gStep_noPanic (c : Codec) (k : String) (v : Json) (st : GSt) (hv : NoPan
         | num b => simpa [gGeomsField] using gTypeErr_noPanic c st
         | str s => simpa [gGeomsField] using gTypeErr_noPanic c st
         | obj ms => simpa [gGeomsField] using gTypeErr_noPanic c st
+        | bad => simpa [gGeomsField] using gTypeErr_noPanic c st
       · rfl
 
 theorem decodeGMembers_noPanic (c : Codec) (ms : Members) (hms : ∀ kv ∈ ms, NoPanicAt c kv.2) :
@@ -161,6 +162,7 @@ theorem noPanicAt_all (c : Codec) : ∀ j : Json, NoPanicAt c j := by
   | hbool b => exact ⟨rfl, rfl⟩
   | hnum b => exact ⟨rfl, rfl⟩
   | hstr s => exact ⟨rfl, rfl⟩
+  | hbad => exact ⟨rfl, rfl⟩
   | harr l ih =>
     refine ⟨by cases c <;> rfl, ?_⟩
     simpa [geomsOf] using decodeGElems_noPanic c l (fun j hj => (ih j hj).1)
@@ -188,7 +190,9 @@ theorem fTypeErr_noPanic (c : Codec) (st : FSt) : (fTypeErr c st).isPanic = fals
 theorem fStep_noPanic (c : Codec) (k : String) (v : Json) (st : FSt) : (fStep c k v st).isPanic = false := by
   unfold fStep
   split
-  · unfold fIdField; split <;> rfl
+  · unfold fIdField; split
+    · rfl
+    · split <;> first | rfl | exact fTypeErr_noPanic c st
   · split
     · unfold fTypeField; split <;> first | rfl | exact fTypeErr_noPanic c st
     · split
@@ -202,7 +206,10 @@ theorem fStep_noPanic (c : Codec) (k : String) (v : Json) (st : FSt) : (fStep c 
             revert hv
             cases decodeGeometry c _ <;> simp [Res.isPanic]
         · split
-          · unfold fPropsField; split <;> first | rfl | exact fTypeErr_noPanic c st
+          · unfold fPropsField; split
+            · rfl
+            · split <;> first | rfl | exact fTypeErr_noPanic c st
+            · exact fTypeErr_noPanic c st
           · rfl
 
 theorem decodeFMembers_noPanic (c : Codec) (ms : Members) :
@@ -295,7 +302,9 @@ theorem decodeFCMap_noPanic (c : Codec) (m : Members) : (decodeFCMap c m).isPani
   have h4 : (fcExtrasOf c (m.filter fun kv => !reservedKey kv.1)).isPanic = false := by
     unfold fcExtrasOf; split
     · rfl
-    · split <;> rfl
+    · split
+      · rfl
+      · split <;> rfl
   unfold decodeFCMap
   revert h1 h2 h3 h4
   cases fcTypeOf c (lookupKey "type" m) <;> cases fcBBoxOf c (lookupKey "bbox" m) <;>
